@@ -68,3 +68,23 @@ def concrete_uf(ctx, asg: dict, subs: dict, name: str):
         return total if xs else sp.Integer(1)
 
     return f
+
+
+def numpy_undefined(expr, subs: dict) -> dict:
+    """Does the NumPy code generated for `expr` return nan at the (real, float) point `subs`?
+    Used to replay a failed radicand side obligation: real-dtype sqrt of a negative number."""
+    import warnings
+
+    import numpy as np
+
+    syms = sorted(expr.free_symbols, key=str)
+    fn = sp.lambdify(syms, expr, "numpy")
+    args = [np.array([float(sp.N(subs.get(s_, 1)))]) for s_ in syms]
+    with warnings.catch_warnings():
+        warnings.simplefilter("ignore")
+        try:
+            val = np.asarray(fn(*args))
+        except Exception as exc:  # noqa: BLE001
+            return {"reproduced": True, "numpy_raises": f"{type(exc).__name__}: {exc}"}
+    bad = bool(np.any(np.isnan(val)))
+    return {"reproduced": bad, "numpy_value": str(val), "inputs": {str(s_): float(a[0]) for s_, a in zip(syms, args)}}
